@@ -5,6 +5,7 @@ produce the same observations for every schedule that respects the documented co
 ("Flush should be called explicitly before", trie.go:547-549).
 -/
 import NeoModel.Model.Mpt.LazyBatch
+import NeoModel.Model.Mpt.LazySeek
 namespace NeoModel.Mpt
 
 inductive LOp where
@@ -12,6 +13,8 @@ inductive LOp where
   | del (p : Path)                  -- Trie.Delete
   | batch (m : List KV)             -- Trie.PutBatch(MapToMPTBatch(m))
   | get (p : Path)                  -- Trie.Get
+  | proof (p : Path)                -- Trie.GetProof
+  | seek (pre start : Path) (back : Bool)  -- NewTrieStore(StateRoot(), …).Seek: a fresh trie HashNode(root) over the same store
   | root                            -- Trie.StateRoot
   | flush                           -- Trie.Flush
   | collapse (d : Nat)              -- Trie.Collapse(d)
@@ -22,6 +25,8 @@ inductive Obs where
   | err
   | val (v : Option Val)
   | root (h : Bytes)
+  | proof (ps : Option (List Bytes))
+  | seek (r : Option (List (Path × Val)))
   deriving DecidableEq
 
 /-- the trie object: its root node and the store behind it. -/
@@ -40,7 +45,12 @@ def lstep (H : Bytes → Bytes) (F : Nat) (s : LState) : LOp → LState × Obs
     match lget s.store F s.root p with
     | some x => ({ s with root := x.1 }, .val (some x.2))
     | none => (s, .val none)
+  | .proof p =>
+    match lgetProof H s.store F s.root p with
+    | some x => ({ s with root := x.1 }, .proof (some x.2))
+    | none => (s, .proof none)
   | .root => (s, .root (lrootHash H s.root))
+  | .seek pre st back => (s, .seek (lseek s.store F (lreopen H s.root) pre st back))
   | .flush => ({ s with store := lflush H s.store s.root }, .ok)
   | .collapse d => ({ s with root := lcollapse H d s.root }, .ok)
   | .reopen => ({ s with root := lreopen H s.root }, .ok)
@@ -51,7 +61,9 @@ def estep (H : Bytes → Bytes) (t : Node) : LOp → Node × Obs
   | .del p => (delete t p, .ok)
   | .batch m => (putBatch t (mapToBatch m), .ok)
   | .get p => (t, .val (lookup t p))
+  | .proof p => (t, .proof (getProof H t p))
   | .root => (t, .root (rootHash H t))
+  | .seek pre st back => (t, .seek (some (seek t pre st back)))
   | .flush => (t, .ok)
   | .collapse _ => (t, .ok)
   | .reopen => (t, .ok)
@@ -78,10 +90,12 @@ def dirtyAfter (d : Bool) : LOp → Bool
   | .flush => false
   | _ => d
 
-/-- the contract of Collapse / reopening from the root: nothing was changed since the last Flush. -/
+/-- the contract of Collapse / reopening from the root (a TrieStore is such a reopening): nothing was
+changed since the last Flush. -/
 def allowed (d : Bool) : LOp → Bool
   | .collapse _ => !d
   | .reopen => !d
+  | .seek _ _ _ => !d
   | _ => true
 
 def okSched : Bool → List LOp → Bool
